@@ -10,7 +10,7 @@ CONSTANT MaxOps = 3
 CONSTANT Cpbs = {12000}
 CONSTANT MaxCost = 100000000
 CONSTANT Menu = {"s1", "s3", "s5"}
-CONSTANT EmitOneIn = 4
+CONSTANT EmitOneIn = 8
 CONSTANT Batches <- BatchesFull
 INVARIANT Accumulation
 INVARIANT UpperBound
